@@ -255,5 +255,87 @@ func runC10(c *ctx, r *Report) error {
 		}
 	}
 	r.sample(map[string]interface{}{"files": len(files), "repositories": []string{"repo", "repo2"}, "example_alone": alone[files[1]]})
+	// "their own defects are reported once per run": a third repository whose local actions / reusable workflows are
+	// defective (metadata without description, unparseable metadata, unparseable reusable workflow, missing one),
+	// referenced from three files, by steps with and without id:. Every run that references a defective callee
+	// reports that callee's own defect exactly once, whatever the subset, order and parallelism.
+	{
+		root := filepath.Join(tmp, "repo3")
+		os.MkdirAll(filepath.Join(root, ".git"), 0o755)
+		os.MkdirAll(filepath.Join(root, ".github", "workflows"), 0o755)
+		os.MkdirAll(filepath.Join(root, "bad"), 0o755)
+		os.MkdirAll(filepath.Join(root, "broken"), 0o755)
+		os.WriteFile(filepath.Join(root, "bad", "action.yml"), []byte("name: bad\ninputs:\n  x:\n    description: d\nruns:\n  using: composite\n  steps:\n    - run: echo\n      shell: bash\n"), 0o644)
+		os.WriteFile(filepath.Join(root, "broken", "action.yml"), []byte("name: [unclosed\n"), 0o644)
+		os.WriteFile(filepath.Join(root, ".github", "workflows", "badwf.yml"), []byte("on:\n  workflow_call:\n    inputs: [a, b]\njobs: {}\n"), 0o644)
+		mkCaller := func(withID bool) string {
+			id := ""
+			if withID {
+				id = "        id: s\n"
+			}
+			return "on: push\njobs:\n  j:\n    runs-on: ubuntu-latest\n    steps:\n      - uses: ./bad\n" + id + "      - uses: ./bad\n      - uses: ./broken\n  k:\n    uses: ./.github/workflows/badwf.yml\n  m:\n    uses: ./.github/workflows/missing.yml\n"
+		}
+		var dfiles []string
+		for i, withID := range []bool{true, false, true} {
+			p := filepath.Join(root, ".github", "workflows", fmt.Sprintf("d%d.yml", i+1))
+			os.WriteFile(p, []byte(mkCaller(withID)), 0o644)
+			dfiles = append(dfiles, p)
+		}
+		classes := []struct{ key, needle string }{
+			{"action-metadata-defect", "description is required in metadata"},
+			{"action-metadata-unparseable", "could not parse action metadata"},
+			{"reusable-workflow-unparseable", "error while parsing reusable workflow"},
+			{"reusable-workflow-missing", "could not read reusable workflow file"},
+		}
+		reps := 6
+		if !c.quick {
+			reps = 60
+		}
+		for mask := 1; mask < 8; mask++ {
+			var subset []string
+			for i, f := range dfiles {
+				if mask&(1<<uint(i)) != 0 {
+					subset = append(subset, f)
+				}
+			}
+			for rep := 0; rep < reps; rep++ {
+				order := append([]string{}, subset...)
+				rng.Shuffle(len(order), func(a, b int) { order[a], order[b] = order[b], order[a] })
+				procs := []int{1, 4, 16}[rep%3]
+				runtime.GOMAXPROCS(procs)
+				l, err := actionlint.NewLinter(nopWriter{}, &actionlint.LinterOptions{Shellcheck: "", Pyflakes: ""})
+				if err != nil {
+					return err
+				}
+				errs, err := l.LintFiles(order, nil)
+				r.Evaluations++
+				var names []string
+				for _, f := range order {
+					names = append(names, filepath.Base(f))
+				}
+				desc := map[string]string{"files_in_order": strings.Join(names, " "), "gomaxprocs": fmt.Sprint(procs), "caller_with_id": mkCaller(true)}
+				if err != nil {
+					r.Crashes = append(r.Crashes, Case{Op: "lintfiles-defective-callees", Input: desc, Note: err.Error()})
+					continue
+				}
+				r.nontrivial("defects:" + strings.Join(names, " ") + fmt.Sprint(procs))
+				for _, cl := range classes {
+					n := 0
+					var where []string
+					for _, e := range errs {
+						if strings.Contains(e.Message, cl.needle) {
+							n++
+							where = append(where, fmt.Sprintf("%s:%d:%d", filepath.Base(e.Filepath), e.Line, e.Column))
+						}
+					}
+					r.hist(fmt.Sprintf("defect-reports:%s:%d", cl.key, n))
+					if n != 1 {
+						r.finding("callee-defect-not-once:"+cl.key, fmt.Sprintf("the callee's own defect (%q) is reported %d times in one run (%v)", cl.needle, n, where), Case{Op: "lintfiles-defective-callees", Input: desc})
+					}
+				}
+			}
+		}
+		r.Rule += "; a third repository with defective callees (action metadata without description / unparseable, reusable workflow unparseable / missing) referenced from three files (steps with and without id:): each callee's own defect exactly once per run for every subset, order and GOMAXPROCS"
+	}
 	return nil
 }
